@@ -317,6 +317,17 @@ func runC11(cfg *runCfg) error {
 		for i, p := range shared {
 			after[i] = planSnapshot(p)
 		}
+		total := 0
+		for _, sl := range solo {
+			total += len(sl.Calls)
+		}
+		if total > 150 && replay == nil {
+			// the comparison of the call multisets is quadratic: very large groups are left to the thorough tier
+			doc.Dist["skipped:more-than-150-calls"]++
+			if cfg.Tier != "thorough" {
+				continue
+			}
+		}
 		c := sh.File()
 		reqs := []string{}
 		stray := len(byTag[0])
